@@ -114,7 +114,8 @@ class Machine:
         s.pc = pc0 + 4; s.lens.append(4)
         F = lambda h, l, what='structural field': s.field(w, h, l, what)
         def dis(t): s.disasm.append((pc0, t))
-        opc = F(6, 0); rd = F(11, 7); f3 = F(14, 12); rs1 = F(19, 15)
+        opc = F(6, 0); rd = F(11, 7)
+        if opc not in (0x37, 0x17, 0x6f): f3 = F(14, 12); rs1 = F(19, 15)      # U/J formats have immediate bits there
         immI = lambda: s.simm(s.field(w, 31, 20, 'imm12', concrete=False), 12)
         if opc == 0x37 or opc == 0x17:
             u = s.field(w, 31, 12, 'imm20', concrete=False)
